@@ -144,6 +144,13 @@ class RemovedRefs(Monitor):
         gone = set(t['rows']) - set(post[tid]['rows'])
         if gone:
           removed[tid] = gone
+    # rows that were created AND removed inside the bundle (e.g. through a temporary id) count too
+    for a in H.stored_reprs(ctx.group):
+      if a[0] in ('RemoveRecord', 'BulkRemoveRecord') and a[1] in post:
+        ids = a[2] if isinstance(a[2], list) else [a[2]]
+        gone = set(i for i in ids if i not in post[a[1]]['rows'])
+        if gone:
+          removed.setdefault(a[1], set()).update(gone)
     if not removed:
       return
     ctx.extra['removal'] = True
@@ -576,6 +583,9 @@ class DirectFlags(Monitor):
 
 
 # ------------------------------------------------------------------------------------------------
+TRIG_COUNT_FORMULA = "(value or 0) + 1"
+
+
 class Triggers(Monitor):
   """
   C15: three-valued reference model of *when* a trigger formula recalculates.  Every trigger
@@ -702,7 +712,8 @@ class Triggers(Monitor):
     byref = {r: c['colId'] for r, c in cols.items()}
     out = {}
     for r, c in cols.items():
-      if c['parentId'] == tref and not unb(c['isFormula']) and c['formula']:
+      # only the columns whose formula counts its own recalculations are modelled
+      if c['parentId'] == tref and not unb(c['isFormula']) and c['formula'] == TRIG_COUNT_FORMULA:
         deps = as_list(c.get('recalcDeps')) or []
         out[c['colId']] = (c.get('recalcWhen') or 0, [byref.get(d, '?') for d in deps], r in deps)
     return out
